@@ -67,6 +67,13 @@ P = {
          "(a successful one); error/panic <=> none; the loop terminates within length+1 rounds; swap-remove removes exactly the failing call. Tie: deterministic batches (arrival order fixed through a verif accessor) "
          "are predicted exactly by the extracted model; free-running concurrent callers are judged by counters and recorded invocations in the database.",
          "Which callers share a batch under the real scheduler is not modelled (any grouping is a set of batches, each covered by the theorem; batches and solo re-runs are serial write transactions).", "DESIGN.md §8 C16"),
+ "C03": ("Conc.v models threads stepping through bbolt's lock protocol (writer mutex from beginRWTx to tx.close on every path, meta read after the mutex is held, txid incremented privately and published by "
+         "writeMeta) under an arbitrary schedule. Proved for every number of threads, every program of committing/failing/panicking/rolled-back write transactions and read transactions, every body function "
+         "and every schedule: the log is serial (serial_ok: consecutive committed ids, every write transaction started from its predecessor's committed state, every read transaction saw the state its id names); "
+         "the published meta is the last committed version; one writer at a time; no deadlock. Tie: step-by-step scheduled runs of real goroutines are predicted exactly by the extracted Conc.crun; free-running "
+         "goroutine logs are judged by the extracted serial_ok plus all-or-nothing/durability/real-time rules; a -race build of the harness and a watchdog decide data-race freedom and lost wake-ups.",
+         "Data races and lost wake-ups are runtime behaviour the model cannot exhibit: decided by the Go race detector and a 30 s watchdog on generated programs (partial on the theorem side). The mmap lock "
+         "(a remapping commit waits for open readers) is not modelled.", "DESIGN.md §8 C03"),
  "C17": ("Lock.v models what Open/Close do with flock (exclusive for read-write, shared for read-only, finite timeout). Proved for every sequence of open/close attempts: a live read-write open is the "
          "only live open; a read-write open succeeds only with no holder, a read-only one only with no read-write holder; close releases. Tie: every open/close result of sequences issued from this "
          "process and from child processes is predicted by the extracted model. The read-only half is decided on observations: every write entry point refused, zero write/truncate/sync calls, SHA-256 "
